@@ -1,56 +1,60 @@
 #!/usr/bin/env python3
-"""selftest/seeded.py [-k substr]: every change under /verif/seeded/ (written by independent sub-agents from the property text
-alone) must make the check of the property it breaks exit 1. Works on a scratch copy of /repo; not a registered check."""
-import json, os, shutil, subprocess, sys, tempfile
+"""selftest/seeded.py [-k substr] [-j N]: every change under /verif/seeded/ (written by independent sub-agents from the property
+text alone) must make the check of the property it breaks exit 1. Works on scratch copies of /repo (N at a time, each worker with
+its own scratch area); not a registered check."""
+import argparse, json, os, shutil, subprocess, sys, tempfile
 HERE = os.path.dirname(os.path.abspath(__file__))
 VERIF = os.path.dirname(HERE)
 sys.path.insert(0, HERE)
 import run as st
+import par
 
-flt = sys.argv[2] if len(sys.argv) > 2 and sys.argv[1] == '-k' else ''
+ap = argparse.ArgumentParser()
+ap.add_argument('-k', default='')
+ap.add_argument('-j', type=int, default=8)
+a = ap.parse_args()
 tmp = tempfile.mkdtemp(prefix='yarel_seeded_')
-evdir = os.path.join(VERIF, 'evidence')
-evsave = tempfile.mkdtemp(prefix='yarel_ev_')
-for f in os.listdir(evdir):
-    shutil.copy(os.path.join(evdir, f), evsave)
-ok_all = True
-results = []
-try:
-    for sid in sorted(os.listdir(os.path.join(VERIF, 'seeded'))):
-        d = os.path.join(VERIF, 'seeded', sid)
-        if flt and flt not in sid:
-            continue
-        meta = json.load(open(os.path.join(d, 'meta.json')))
-        root = os.path.join(tmp, sid)
-        st.copy_repo(root)
+
+
+def one(sid, slot, env):
+    d = os.path.join(VERIF, 'seeded', sid)
+    meta = json.load(open(os.path.join(d, 'meta.json')))
+    root = os.path.join(tmp, sid)
+    st.copy_repo(root)
+    try:
         pf = os.path.join(d, 'patch.rebased.diff') if os.path.exists(os.path.join(d, 'patch.rebased.diff')) else os.path.join(d, 'patch.diff')
         p = subprocess.run(['patch', '-p1', '--no-backup-if-mismatch', '-i', pf], cwd=root, capture_output=True, text=True)
         if p.returncode != 0:
-            print('%-45s PATCH DOES NOT APPLY' % sid)
-            ok_all = False
-            continue
+            return (sid, None, '%-45s PATCH DOES NOT APPLY' % sid, False)
         prop = meta['breaks_property']
-        rc, out = st.run_check(prop, root)
+        rc, out = par.run_check(prop, root, 'quick', env)
         fired = rc == 1 and ('VIOLATION property=%s' % prop) in out
         first = [l for l in out.splitlines() if l.startswith('  violation:')]
         if meta.get('not_decided'):
             # a change the static rules do not decide, kept with its reason: must stay silent (not half-caught by accident)
-            print('%-45s %s %s' % (sid, prop, 'not decided (documented)' if rc == 0 else 'now reported rc=%d: update meta.json' % rc))
-            results.append({'seed': sid, 'property': prop, 'caught': fired, 'not_decided': True})
-            shutil.rmtree(root, ignore_errors=True)
-            continue
-        ok_all &= fired
-        print('%-45s %s %s' % (sid, prop, 'caught' if fired else 'MISSED rc=%d' % rc))
+            msg = '%-45s %s %s' % (sid, prop, 'not decided (documented)' if rc == 0 else 'now reported rc=%d: update meta.json' % rc)
+            return (sid, {'seed': sid, 'property': prop, 'caught': fired, 'not_decided': True}, msg, True)
+        msg = '%-45s %s %s' % (sid, prop, 'caught' if fired else 'MISSED rc=%d' % rc)
         if first:
-            print('      ' + first[0][:200])
-        results.append({'seed': sid, 'property': prop, 'caught': fired})
+            msg += '\n      ' + first[0][:200]
+        return (sid, {'seed': sid, 'property': prop, 'caught': fired}, msg, fired)
+    finally:
         shutil.rmtree(root, ignore_errors=True)
+
+
+ids = [s for s in sorted(os.listdir(os.path.join(VERIF, 'seeded'))) if a.k in s]
+ok_all = True
+results = []
+try:
+    for (sid, res, msg, ok) in par.pool_map(ids, one, a.j):
+        print(msg)
+        ok_all &= ok
+        if res:
+            results.append(res)
 finally:
-    for f in os.listdir(evsave):
-        shutil.copy(os.path.join(evsave, f), evdir)
-    shutil.rmtree(evsave, ignore_errors=True)
     shutil.rmtree(tmp, ignore_errors=True)
-if not flt:
+    par.cleanup()
+if not a.k:
     json.dump({'ok': ok_all, 'results': results}, open(os.path.join(HERE, 'last_seeded_result.json'), 'w'), indent=1)
 print('SEEDED %s: %d changes' % ('OK' if ok_all else 'FAILED', len(results)))
 sys.exit(0 if ok_all else 1)
